@@ -699,7 +699,15 @@ func registerIntrinsics(e *Engine) {
 		if p == nil {
 			return 0
 		}
+		if lz, ok := (*p).(*lazyVal); ok {
+			*p = fr.m.force(lz)
+		}
 		s := (*p).(structure)
+		for i := 0; i < 2; i++ {
+			if lz, ok := s[i].(*lazyVal); ok {
+				s[i] = fr.m.force(lz)
+			}
+		}
 		n := s[0].(*omap).len()*8 + len(s[1].([]value))*8
 		return n
 	}
@@ -752,6 +760,80 @@ func registerIntrinsics(e *Engine) {
 			panic(unsupported("hex of symbolic bytes"))
 		}
 		return hex.EncodeToString(bs)
+	}
+	// --- strings.Builder (uses unsafe): content kept in a side table, ropes allowed
+	sbGet := func(fr *frame, a value) (value, *value) {
+		p := a.(*value)
+		if p == nil {
+			fr.m.nilDeref()
+		}
+		c, ok := fr.m.builders[p]
+		if !ok {
+			c = ""
+		}
+		return c, p
+	}
+	in["(*strings.Builder).Grow"] = noop
+	in["(*strings.Builder).Reset"] = func(fr *frame, args []value) value {
+		_, p := sbGet(fr, args[0])
+		delete(fr.m.builders, p)
+		return nil
+	}
+	in["(*strings.Builder).WriteString"] = func(fr *frame, args []value) value {
+		c, p := sbGet(fr, args[0])
+		fr.m.builders[p] = strConcat(c, args[1])
+		n := 0
+		if s, ok := args[1].(string); ok {
+			n = len(s)
+		}
+		return tuple{n, nilError()}
+	}
+	in["(*strings.Builder).WriteByte"] = func(fr *frame, args []value) value {
+		c, p := sbGet(fr, args[0])
+		b, ok := args[1].(uint8)
+		if !ok {
+			panic(unsupported("Builder.WriteByte of a symbolic byte"))
+		}
+		fr.m.builders[p] = strConcat(c, string([]byte{b}))
+		return nilError()
+	}
+	in["(*strings.Builder).WriteRune"] = func(fr *frame, args []value) value {
+		c, p := sbGet(fr, args[0])
+		r, ok := args[1].(int32)
+		if !ok {
+			panic(unsupported("Builder.WriteRune of a symbolic rune"))
+		}
+		fr.m.builders[p] = strConcat(c, string(r))
+		return tuple{len(string(r)), nilError()}
+	}
+	in["(*strings.Builder).Write"] = func(fr *frame, args []value) value {
+		c, p := sbGet(fr, args[0])
+		bs, ok := concreteBytes(args[1])
+		if !ok {
+			panic(unsupported("Builder.Write of symbolic bytes"))
+		}
+		fr.m.builders[p] = strConcat(c, string(bs))
+		return tuple{len(bs), nilError()}
+	}
+	in["(*strings.Builder).String"] = func(fr *frame, args []value) value {
+		c, _ := sbGet(fr, args[0])
+		return c
+	}
+	in["(*strings.Builder).Len"] = func(fr *frame, args []value) value {
+		c, _ := sbGet(fr, args[0])
+		return len(fr.m.concreteString(c, "Builder.Len"))
+	}
+	// field.Error rendering uses reflect on the bad value: approximate text (never branched on)
+	in["(*k8s.io/apimachinery/pkg/util/validation/field.Error).ErrorBody"] = func(fr *frame, args []value) value {
+		m := fr.m
+		p := args[0].(*value)
+		if p == nil {
+			m.nilDeref()
+		}
+		st := (*p).(structure)
+		var res value = st[0]
+		res = strConcat(strConcat(res, ": "), m.textOf(st[2], 0))
+		return strConcat(strConcat(res, ": "), st[3])
 	}
 	in["time.Now"] = func(fr *frame, args []value) value { return zero(fr.m.pkgType("time", "Time")) }
 	in["time.Since"] = func(fr *frame, args []value) value { return int64(0) }
